@@ -22,6 +22,7 @@ type Profile struct {
 	TimeoutPct   int // share of targets that declare a timeout (default 25)
 	DirOutputs   bool
 	BinOutputs   bool
+	Clean        bool // `grog clean` as a history step
 	BinWeight    int // extra weight of "the only output is a bin_output"
 	MinSteps     int
 	MaxSteps     int
@@ -198,6 +199,9 @@ func GenHistory(t *rapid.T, p Profile) History {
 	}
 	if p.Faults {
 		kinds = append(kinds, "fault-wipe-cas")
+	}
+	if p.Clean {
+		kinds = append(kinds, "grog-clean")
 	}
 	if p.Kills {
 		kinds = append(kinds, "build-kill", "build-kill", "build-kill")
